@@ -71,7 +71,10 @@ var (
 )
 
 // Epoch is the instant virtual time 0 of a scheduler run corresponds to.
-var Epoch = time.Date(2024, time.March, 10, 12, 0, 0, 0, time.UTC)
+var Epoch = DefaultEpoch
+
+// DefaultEpoch is what Epoch is unless a scenario moves it.
+var DefaultEpoch = time.Date(2024, time.March, 10, 12, 0, 0, 0, time.UTC)
 
 // MinSleep is the least amount of virtual time any Sleep takes inside a scheduler run.
 var MinSleep = time.Millisecond
